@@ -7,9 +7,9 @@ references as (table, id)).  `look_for_number` is additionally compared at funct
 from . import common, l2, recipes
 
 SPEC = {
-    "lean": ["SnowModel.Props.C03", "SnowModel.Props.C03Bridge", "SnowModel.Props.L1Bridge"],
+    "lean": ["SnowModel.Props.C03", "SnowModel.Props.L2Fuel", "SnowModel.Props.C03Bridge", "SnowModel.Props.L1Bridge"],
     "pins": ["Runtime", "ObjectRows", "ObjectModel", "TemplateUtils"],
-    "technique": "Lean 4 executable reference interpreter (L2) with theorems pinning the documented rules (count/child_index, nested-before-parent, friends-after, latest-row-wins, scope order, declaration order, v2 coercion) + AST pins (override orders, row-generation statement order, look_for_number) + row-for-row differential against the real interpreter on generated programs in both dialects",
+    "technique": "Lean 4 executable reference interpreter (L2) with theorems pinning the documented rules (count/child_index, nested-before-parent, friends-after, latest-row-wins, scope order, declaration order, v2 coercion) + fuel adequacy (`runChain_fuel_irrelevant`: the fuel parameter is only a termination device — any two fuels that do not run out give the same outcome) + AST pins (override orders, row-generation statement order, look_for_number) + row-for-row differential against the real interpreter on generated programs in both dialects",
     "level_text": "The property *is* a differential against an independent reference interpreter; that interpreter is a Lean definition whose documented rules are machine-checked theorems (for every recipe, state and fuel), and the real interpreter is compared with it row for row and value for value on generated programs of the deterministic core language under snowfakery_version 2 and 3.",
     "level_note": "Trusted: Lean kernel, py2lean, harness canonicalisation, Jinja2 for the formula sub-language (ints, names, attribute paths, + - *, text/${{}} concatenation). Programs outside the modelled fragment (floats, filters, literal_eval-sensitive strings, slot repr) are reported as `outside` by the model and discarded (counted in the evidence). A disagreement is a broken correspondence; it is a violation with that program as replay when one of the rule oracles fails on the real output.",
     "assumptions": ["PyYAML loads the emitted recipe text as the generator's structure", "Jinja2 evaluates the formula sub-language as Python does on ints/strs"],
